@@ -115,6 +115,15 @@ def sweep(res, tier, check, RemoteWorker, PersistentRemoteWorker):
         for cls in (RemoteWorker, PersistentRemoteWorker):
             o, x, d = construct(lambda: cls(None, host=server.addr, context=4711))
             check((cls.__name__, 'unknown-context'), o, x, d, True)
+        # the server-side child dies before it reports its identity (an argument whose unpickling - which happens in the
+        # child only, the payload is opaque to the server - ends the process)
+        for cls in (RemoteWorker, PersistentRemoteWorker):
+            o, x, d = construct(lambda: cls(st.sq3, args=(ExitOnUnpickle(),), host=server.addr))
+            res.count('outcome:remote-child-dies-early-' + o); res.case((cls.__name__, 'remote-child-exits-before-reporting'), nontrivial=True)
+            if o == 'hang':
+                res.violation(dict(case=[cls.__name__, 'remote child exits before reporting its identity']), 'the constructor did not return within 10 s')
+            elif o == 'returned' and (x.is_alive() or x.has_error is None):
+                res.violation(dict(case=[cls.__name__, 'remote child exits before reporting its identity']), 'constructor returned a worker that is neither alive nor definitely dead')
         before = set(st.descendants(server.pid))
         o, x, d = construct(lambda: RemoteWorker(st.sq3, args=(2,), host=server.addr))
         check(('RemoteWorker', 'healthy-after-failures'), o, x, d, False)
@@ -122,6 +131,11 @@ def sweep(res, tier, check, RemoteWorker, PersistentRemoteWorker):
             x.wait(10)
     finally:
         server.terminate(force=True)
+
+
+class ExitOnUnpickle:
+    def __reduce__(self):
+        return (os._exit, (7,))
 
 
 def local_kinds(res, ProcessWorker, ThreadWorker):
@@ -153,4 +167,4 @@ def local_kinds(res, ProcessWorker, ThreadWorker):
         res.count('outcome:thread-early-' + o); res.case(('ThreadWorker', 'exception-at-line', p), nontrivial=True)
         if o == 'hang':
             res.violation(dict(case=['ThreadWorker', 'exception on line event', p]), 'the constructor did not return')
-    return res.finish()
+    return None
